@@ -12,6 +12,8 @@ func init() {
 			ruleKind(c)
 			ruleOmit0(c)
 			ruleSliceWrap(c)
+			rulePendingKey(c)
+			rulePtrTag(c)
 		},
 	})
 }
